@@ -129,6 +129,24 @@ ROUND5 = {
 }
 for _k, _v in ROUND5.items():
     CHECKS[_k]["text"] += _v
+ROUND6 = {
+ "C01": " Round 6: C01.ledger-check-window - the block whose presence switches the ledger check on lies exactly tip - genesis_period (linear form of the lookup argument; callers pass the configured period).",
+ "C02": " Round 6: cross-lists C03.tx-apply-total (a payout created by winding is withdrawn by unwinding).",
+ "C03": " Round 6: C03.chain-segments - the wind/unwind segments are collected from the tip, previous_block_hash or the longest-chain index, never a by-height lookup that ignores chain membership.",
+ "C04": " Round 6: cross-lists C20.inversion / reacquire / read-reentry for bodies reachable from add_block (termination clause).",
+ "C05": " Round 6: C05.density-verdict - no possibly-true density verdict is returned without the ancestor walk (walker and every wrapper up to the gate).",
+ "C06": " Round 6: C06.leaf-fresh (Block::generate -> Transaction::generate -> generate_hash_for_signature -> store, on every path and for every transaction) and C06.leaf-from-content (a transaction whose leaf is read from its signature bytes, type SPV, is never accepted by Transaction::validate; genuine defect repaired in /repo ddcc959).",
+ "C07": " Round 6: header fields the producer recomputes itself (total_fees) are rewritten through the fields it filled from the consensus values and compared with the generator's definition; producer assignments inside private Block helpers are followed.",
+ "C08": " Round 6: C08.routing-path|type-bypass - every non-exempt transaction type reaches validate_routing_path on accepting paths of Transaction::validate.",
+ "C11": " Round 6: C11.reject-leaves-pool - nothing reachable from add_block_failure removes pooled transactions or releases reservations; cross-lists C20.read-reentry.",
+ "C13": " Round 6: C13.window-block-on-disk - the disk write in add_block_success depends on node/block kind only, never on chain membership at arrival time.",
+ "C14": " Round 6: C14.refused-block-restored - add_block_failure cannot finish, once it holds the refused block, without add_block_transactions_back.",
+ "C17": " Round 6: the key argument of the challenge verification must be the response's key itself (the one then recorded), not a value computed from it.",
+ "C19": " Round 6: C19.slip-cap - add_from_slip/add_to_slip stop at the count Transaction::validate still accepts.",
+ "C20": " Round 6: C20.read-reentry - a read guard of a class the program also write-acquires is not re-read while live (tokio's fair RwLock queues the second read behind a waiting writer), unless serialised by the gate.",
+}
+for _k, _v in ROUND6.items():
+    CHECKS[_k]["text"] += _v
 PENDING = "check not built yet in this round (planned in DESIGN.md §4); not claimed until it lands"
 
 def main():
